@@ -37,9 +37,9 @@ ASSUMPTIONS = [
 
 ROUTINES = ["dqn", "nature_dqn", "ddqn", "per", "ddpg", "td3", "td3_lap", "sac",
             "td7", "mrq", "pets", "reinforce", "actor_critic", "a2c", "a2c_same",
-            "a2c_inplace", "ppo", "q_learning", "sarsa", "double_q_learning", "monte_carlo",
+            "a2c_inplace", "mrq_own", "td3_lap_own", "ppo", "q_learning", "sarsa", "double_q_learning", "monte_carlo",
             "dynaq", "rollout_helper"]
-COST = {"mrq": 14, "pets": 10, "td7": 8, "dqn": 7, "ppo": 7, "dynaq": 5, "sac": 4,
+COST = {"mrq": 14, "mrq_own": 14, "pets": 10, "td7": 8, "dqn": 7, "ppo": 7, "dynaq": 5, "sac": 4,
         "ddpg": 3, "td3": 3, "td3_lap": 3}
 
 
@@ -117,6 +117,45 @@ def check_add_trace(res, events, algo, acting_kind):
                         f"{'never acted from that observation' if hit is None else 'produced ' + str((np.asarray(hit[0]).tolist(), hit[1]))}")
                     return
             res.see("sampled_transitions_checked", int(obs.shape[0]))
+            # multi-step windows: every later step, up to and including the
+            # first terminated one, continues the same episode of the
+            # environment log (rewards / actions / successor observations)
+            R = np.asarray(b["reward"], np.float64)
+            if R.ndim == 2 and R.shape[1] > 1 and "terminated" in b:
+                T = np.asarray(b["terminated"]).reshape(R.shape)
+                O = np.asarray(b["observation"], np.float64)
+                NO = np.asarray(b["next_observation"], np.float64)
+                for i in range(R.shape[0]):
+                    cur_key = tuple(obs[i].tolist())
+                    for t in range(R.shape[1]):
+                        hit = logged.get(cur_key)
+                        bad = hit is None or abs(float(R[i, t]) - hit[1]) > 1e-6
+                        if not bad and O.ndim == 3:
+                            bad = tuple(O[i, t].tolist()) != cur_key or not _eq(
+                                NO[i, t], hit[2])
+                        if bad:
+                            res.violation(
+                                f"C01/sampled_window_leaves_episode/{algo}",
+                                f"step {t} of a sampled {R.shape[1]}-step window "
+                                f"starting at {obs[i].tolist()} (reward "
+                                f"{float(R[i, t])}) is not the environment's next "
+                                f"transition of that episode"
+                                + ("" if hit is None else
+                                   f" (the environment returned reward {hit[1]})"))
+                            return
+                        if bool(T[i, t]) != bool(hit[3]):
+                            res.violation(
+                                f"C01/sampled_window_leaves_episode/{algo}",
+                                f"step {t} of a sampled window: terminated flag "
+                                f"{bool(T[i, t])}, environment {bool(hit[3])}")
+                            return
+                        if hit[3]:
+                            break
+                        cur_key = tuple(np.asarray(hit[2], np.float64).tolist())
+                    if O.ndim != 3 and not bool(np.any(T[i])):
+                        # reduced view: successor observation of the last step
+                        pass
+                res.see("sampled_windows_checked", int(R.shape[0]))
             continue
         if k == "reset":
             cur = e["obs"]
@@ -310,6 +349,13 @@ def run_case(case):
     if algo == "a2c_same":
         name = "a2c"
         cfg["same_step"] = True
+    if algo.endswith("_own"):
+        # the routine builds its own replay buffer; MR.Q with a Q horizon well
+        # above the encoder horizon (valid, non-default)
+        name = algo[:-4]
+        cfg["own_buffer"] = True
+        if name == "mrq":
+            cfg["encoder_horizon"], cfg["q_horizon"] = 1, 4
     if algo == "a2c_inplace":
         # vector environment that reuses one observation buffer
         # (SyncVectorEnv(copy=False)); with one step per update every row is
@@ -324,6 +370,12 @@ def run_case(case):
     patches = acting_obs_patches(tr)
     import importlib
     mod = importlib.import_module(run.patch_modules[0])
+    if cfg.get("own_buffer"):
+        from vf.loop import rec_buffer_class
+        for bname, obj in list(vars(mod).items()):
+            if isinstance(obj, type) and obj.__module__.endswith("replay_buffer") \
+                    and hasattr(obj, "add_sample"):
+                patches.append((mod, bname, rec_buffer_class(obj, tr)))
     captured = {}
     acting_kind = None
     if name in ("dqn", "nature_dqn", "ddqn", "per"):
